@@ -7,7 +7,11 @@ import (
 	rt "github.com/jimsnab/go-redisemu/verifrt"
 )
 
+//go:norace
 func Notify(c *rt.Chan[os.Signal], sig ...os.Signal) {}
+//go:norace
 func Stop(c *rt.Chan[os.Signal])                     {}
+//go:norace
 func Ignore(sig ...os.Signal)                        {}
+//go:norace
 func Reset(sig ...os.Signal)                         {}
